@@ -81,7 +81,7 @@ CHECKS = {
         "technique": "deterministic simulation with fault injection at the libc seam (errno, short writes, low disk) inside operations, plus invalid-input classes on every engine write path; live census and real recover() on the kill-model image judged against a reference map after each step",
         "rule": "two configurations run separately (even runs: invalid-input classes {wrong dimension, empty, all-zero, denormal, NaN, +-Inf, overflowing norm, huge lane, index full} "
                 "on HnswBackend::insert / TieredEngine::insert / bulk_load_cold_tier, no I/O fault; odd runs: storage faults = 1-3 rules per faulted step from "
-                "{ENOSPC,EIO,EDQUOT,EINTR,EACCES} x n-th {write,fsync,fdatasync,ftruncate,rename,open,unlink} x file role {wal, snapshot tmp, MANIFEST tmp, dir} + short writes + statvfs low space, "
+                "{ENOSPC,EIO,EDQUOT,EINTR,EACCES} x n-th {write,fsync,fdatasync,ftruncate,rename,open,unlink} x file role {wal, snapshot tmp, MANIFEST tmp, dir} + short writes + statvfs low space, plus, every 50th run, a wide batch: 65-140 documents inserted, then ONE batch_delete over (nearly) all of them with a write error / short write at a PRNG position among its log records or a failed fsync, then restart, "
                 "armed only inside the operation, so second faults land in the engine's rollback/retries). After every step live census == model; after every failed/faulted "
                 "step (and every 4th + last) the real strict recovery on the kill-model image of the journal == model. evaluations = steps judged live + recoveries judged. "
                 "distinct_nontrivial = runs with >=1 operation that reported failure whose journal-shape hash is new.",
@@ -291,7 +291,7 @@ CHECKS = {
         "design_ref": "DESIGN.md section 5/C15",
         "engine": "E3 in-process server (real handlers, validators, generated router/codec, panic containment layer)",
         "technique": "deterministic simulation: seeded scripts of structurally generated boundary / pathological requests against the real server run in-process; after every call the delivered status, the canonical collection (ground truth) and continued service are judged, then the server is restarted and the collection compared again",
-        "rule": "script = 3 baseline documents (one sentinel) + 4-18 calls (6-40 thorough); each call picks an RPC (Insert, BulkInsert, BulkLoadHnsw, Delete, UpdateMetadata, Query, BulkQuery, Search, BulkSearch, BatchDelete ids/filter/none, FlushHotTier, raw undecodable frames on every method, unknown methods) "
+        "rule": "server with auth on and two tenants, the acting one sorting second so that its tenant index is 1 and global ids differ from local ids; script = 3 baseline documents (one sentinel) + 4-18 calls (6-40 thorough); each call picks an RPC (Insert, BulkInsert, BulkLoadHnsw, Delete, UpdateMetadata, Query, BulkQuery, Search, BulkSearch, BatchDelete ids/filter/none, FlushHotTier, raw undecodable frames on every method, unknown methods) "
                 "and with probability 2/3 poisons fields: ids {0, u32::MAX, u32::MAX+1, u64::MAX}; vectors {empty, 4097 lanes, 4096 lanes, dim-1, dim+1, NaN, +inf, -inf, all 0.0, all -0.0, all f32::MAX, smallest denormal, +-3e38, 1 lane}; k {0, 999, 1000, 1001, u32::MAX}; ef {1, 10000, 10001, u32::MAX}; "
                 "min_score {NaN, +-inf, 2, -1, denormal}; filters {unset oneof, range without bound, NOT without operand, empty AND/OR/IN, 300-way AND, 2000-value IN, nesting 20..5000 levels of NOT/AND/OR, non-numeric range bounds}; metadata {70 kB value, empty key, 200 keys, reserved key}; "
                 "streams of 0-6 items mixing valid and poisoned ones, streams and id lists of 10001-10003 entries. Each item / request is classified valid, invalid or borderline (zero, overflowing-norm, denormal vectors, deep-but-decodable filters: may be refused or accepted). "
